@@ -23,6 +23,7 @@ NAMEMAPS = {
     'int': '123',
     'idlike': '1',          # a name that is the decimal text of (another) asset's id
     'idlike0': '0',
+    'nel': 'a\x85b\u2028c',   # NEL and LINE SEPARATOR: line breaks for YAML, ordinary characters for a name
 }
 
 
